@@ -1,5 +1,6 @@
 """C08 -- cached cluster metadata mirrors the broker's answer and self-heals when stale."""
 import random
+import zlib
 
 from ..core import Result, sig
 from ..engines.world import World
@@ -78,7 +79,10 @@ class Mirror(object):
             d = orig_unaware(requestId, request, *a, **kw)
 
             def note(resp):
-                self.cur[0] = requestId
+                # the same request (same correlation id) may have been offered to several brokers in turn: pair
+                # the reply with the recorded response that has these very bytes
+                crc = (zlib.crc32(resp) & 0xffffffff) if isinstance(resp, (bytes, bytearray)) else None
+                self.cur[0] = (requestId, crc)
                 return resp
             d.addCallback(note)
             return d
@@ -86,7 +90,7 @@ class Mirror(object):
         orig_merge = client._merge_topic_metadata
 
         def merge(brokers, topics, fetched_all):
-            corr = self.cur[0]
+            corr, crc = self.cur[0] if self.cur[0] is not None else (None, None)
             self.cur[0] = None
             pre = self.view()
             pre_clients = dict(client.clients)
@@ -105,7 +109,10 @@ class Mirror(object):
                 raise
             finally:
                 self.in_merge = False
-                ev = self.served.get(corr)
+                ev = None
+                for cand in self.served.get(corr, ()):
+                    if cand.get("reply_crc") == crc:
+                        ev = cand
                 if ev is None:
                     res.hit("merge_without_recorded_response")
                 else:
@@ -118,7 +125,7 @@ class Mirror(object):
 
     def _on_srv(self, ev):
         if ev.get("api") == "Metadata" and ev.get("result") is not None:
-            self.served[ev["corr"]] = ev
+            self.served.setdefault(ev["corr"], []).append(ev)
 
     def _on_connect(self, att):
         f = att.factory
@@ -397,8 +404,10 @@ def run_mirror(spec, res):
         w.run(until=w.clock.seconds() + 3.0)
         eat(client.load_metadata_for_topics())
         w.run(until=w.clock.seconds() + 3.0)
-        d = client.close()
-        eat(d)
+        try:
+            eat(client.close())
+        except Exception as e:
+            res.ev("close_raised_%s" % type(e).__name__)
         w.run(until=w.clock.seconds() + 2.0)
     for (t, label, typ, tb) in w.clock.errors:
         res.violate("harness/exception-escaped-a-reactor-event:%s" % typ, "%s in %s" % (typ, label), tb=tb[-600:])
@@ -663,7 +672,7 @@ def run_recover(spec, res):
                         gen[0] += 1
                         cl.readdress(n, "new%d-%d.sim" % (n, gen[0]), 7100 + gen[0], sever=rng.random() < 0.7)
             w.clock.labelled(t, "fault." + kind, fire)
-            t_last = t
+            t_last = max(t_last, t)
             if kind.startswith("restart"):
                 dt = rng.choice((0.3, 1.5, 3.0))
 
@@ -762,10 +771,15 @@ def run_recover(spec, res):
 
 def run(spec):
     res = Result()
-    if spec["kind"] == "mirror":
-        run_mirror(spec, res)
-    elif spec["kind"] == "invalidate":
-        run_invalidate(spec, res)
-    else:
-        run_recover(spec, res)
+    try:
+        if spec["kind"] == "mirror":
+            run_mirror(spec, res)
+        elif spec["kind"] == "invalidate":
+            run_invalidate(spec, res)
+        else:
+            run_recover(spec, res)
+    except Exception:
+        # keep what the monitors saw before the scenario broke down (it may be the code under test that raised)
+        import traceback
+        res.inconclusive.append("scenario raised: " + traceback.format_exc(limit=8)[-1200:])
     return res
